@@ -761,6 +761,12 @@ let rec is_interleaving (a : string list) (b : string list) (c : string list) : 
 let rune_count_s (s : string) = int_of_nat (M.rune_count (bytes_of_string s))
 
 let rec op_pp r = function
+  | [content; level; pf; lit; banner; palette; plain; pe; color; ce; filt; fe; mat; me; ngor; junks; det; def; imm] ->
+    (* C14, hook internal/verif_hooks.go + internal/verifcmd: pp's text renderer run repeatedly on one snapshot *)
+    if imm = "X" then flag r "corr:pp-internal-hook-unavailable"
+    else if String.length imm >= 3 && String.sub imm 0 3 = "ok:" then (if imm <> "ok:0" then tag r "rendered-twice")
+    else flag r ("prop:C14:pp-text-rendering:" ^ imm);
+    op_pp r [content; level; pf; lit; banner; palette; plain; pe; color; ce; filt; fe; mat; me; ngor; junks; det; def]
   | [content; level; pf; lit; banner; palette; plain; pe; color; ce; filt; fe; mat; me; ngor; junks; det; def] ->
     if def = "H" then flag r "prop:C02:pp-html-mode-loses-pass-through-text"
     else if def <> "1" then flag r "prop:C02:pp-default-mode-differs-from-plain-with-nothing-on-disk";
